@@ -159,7 +159,3 @@ func cmdFunc(args []string) {
 	fmt.Printf("total %.2fs\n", time.Since(t0).Seconds())
 }
 
-func cmdSelftest(args []string) int {
-	fmt.Fprintln(os.Stderr, "selftest: not implemented yet")
-	return 2
-}
